@@ -1475,3 +1475,85 @@ def tips_distinct(ex, tips):
         for q in items[:i]:
             r = ops.and_(ex, r, ops.compare(ex, "!=", tip_bit(ex, p), tip_bit(ex, q)))
     return r
+
+
+# ----------------------------------------------------------------------------- records of the positive pairs (aspirate / dispense of any length)
+
+
+def _posfilter(ex, volumes):
+    """ghost functions for 'the pairs with a positive volume': CNT(k) = number of positive volumes among the first k,
+    SEL(j) = index of the j-th positive volume.  Defined by CNT(0)=0, CNT(k+1)=CNT(k)+[v_k>0], SEL(CNT(k))=k if v_k>0."""
+    j = z3.Int("pf_j")
+    vj = ops.seq_get(ex, volumes, Sym(j, "int"))
+    key = "posfilter:" + term(vj, "real").sexpr()
+    reg = ex.p.ghost.setdefault("posfilter", {})
+    if key not in reg:
+        CNT = z3.Function(f"poscount{len(reg)}", z3.IntSort(), z3.IntSort())
+        SEL = z3.Function(f"possel{len(reg)}", z3.IntSort(), z3.IntSort())
+        ex.p.assume(CNT(0) == 0)
+        reg[key] = (CNT, SEL, term(vj, "real"), j)
+    return reg[key]
+
+
+@spec
+def pos_unfold(ex, volumes, k):
+    """definitional instances at k (sound: they are the definition of the two ghost functions) + the lemma 0 <= CNT(k) <= k"""
+    CNT, SEL, vj, j = _posfilter(ex, volumes)
+    kt = term(k, "int")
+    vk = z3.substitute(vj, (j, kt))
+    ex.p.assume(z3.Implies(kt >= 0, z3.And(CNT(kt + 1) == CNT(kt) + z3.If(vk > 0, 1, 0), z3.Implies(vk > 0, SEL(CNT(kt)) == kt),
+                                           CNT(kt) >= 0, CNT(kt) <= kt)))
+    return True
+
+
+@spec
+def pos_mono(ex, volumes, k, n):
+    """lemma instance: k <= n implies CNT(k) <= CNT(n)   (proved by induction: lemma C01/poscount-monotone)"""
+    CNT, SEL, vj, j = _posfilter(ex, volumes)
+    kt, nt = term(k, "int"), term(n, "int")
+    ex.p.assume(z3.Implies(z3.And(0 <= kt, kt <= nt), z3.And(CNT(kt) <= CNT(nt), CNT(kt) >= 0)))
+    return True
+
+
+@spec
+def pair_records(ex, kind, wl, L, wells, volumes, kwargs, k):
+    """the A / D records of the pairs i < k with a positive volume, in order"""
+    w = colmajor(ex, wells)
+    n = ops.seq_len(w)
+    if isinstance(k, int) and w.is_concrete_len():
+        vols = colmajor(ex, volumes)
+        out = SeqV("list")
+        for i in range(k):
+            v = _bcast(ex, vols, i, n)
+            c = ex.truth(ops.compare(ex, ">", v, 0))
+            item = SeqV.of("list", [ad_record(ex, kind, wl, L, ops.seq_get(ex, w, i), v, kwargs)])
+            out = ops.seq_concat(ex, out, item if c is True else (SeqV("list") if c is False else ops.ite(ex, c, item, SeqV("list"))))
+        return out
+    vols = colmajor(ex, volumes)
+    bv = SeqV("list", [Blk(term(n, "int"), lambda i: _bcast(ex, vols, i if isinstance(i, (int, Sym)) else Sym(i, "int"), n))])
+    CNT, SEL, vj, j = _posfilter(ex, bv)
+    kt = term(k, "int")
+
+    def rec(jj):
+        idx = Sym(SEL(term(jj, "int")), "int")
+        return ad_record(ex, kind, wl, L, ops.seq_get(ex, w, idx), ops.seq_get(ex, bv, idx), kwargs)
+
+    return SeqV("list", [Blk(CNT(kt), rec)])
+
+
+@spec
+def pos_mono_all(ex, wells, volumes):
+    """lemma instances CNT(k) <= CNT(n) for the current loop index k (if inside the cut loop) and n = number of wells"""
+    w = colmajor(ex, wells)
+    n = ops.seq_len(w)
+    if isinstance(n, int):
+        return True
+    vols = colmajor(ex, volumes)
+    bv = SeqV("list", [Blk(term(n, "int"), lambda i: _bcast(ex, vols, i if isinstance(i, (int, Sym)) else Sym(i, "int"), n))])
+    ks = ex.p.ghost.get("loop_k", [])
+    pos_mono(ex, bv, 0, Sym(term(n, "int"), "int"))
+    for k in ks[-1:]:
+        pos_mono(ex, bv, k, Sym(term(n, "int"), "int"))
+    CNT, SEL, vj, j = _posfilter(ex, bv)
+    ex.p.assume(CNT(0) == 0)
+    return True
